@@ -231,6 +231,8 @@ type Sig = (String, String, String);
 
 /// how many transitions a state tainted by a structural / counter violation is followed
 pub const TAINT_HORIZON: u8 = 3;
+/// at most this many tainted states are followed per run (in deterministic order)
+pub const MAX_TAINTED_STATES: usize = 8_000;
 
 struct Partial<S: Sut> {
     _s: std::marker::PhantomData<S>,
@@ -448,6 +450,7 @@ pub fn explore_collect<S: Sut>(uni: &Universe, cfg: &Config, observers: &[(&'sta
     let mut frontier: Vec<(u32, St<S>)> = vec![(0, init)];
     let mut all_viols: HashMap<Sig, (u64, Found)> = HashMap::new();
     let mut stop = false;
+    let mut tainted_states: usize = 0;
     while !frontier.is_empty() && !stop {
         rep.layers += 1;
         let threads = cfg.threads.max(1).min(frontier.len().max(1));
@@ -508,6 +511,15 @@ pub fn explore_collect<S: Sut>(uni: &Universe, cfg: &Config, observers: &[(&'sta
         for c in cands {
             if visited.contains_key(&c.key) {
                 continue;
+            }
+            // tainted states (followed only to expose downstream effects of a structural / counter
+            // violation) are capped per run: their free lists differ endlessly under a leak
+            if c.taint > 0 {
+                if tainted_states >= MAX_TAINTED_STATES {
+                    rep.pruned += 1;
+                    continue;
+                }
+                tainted_states += 1;
             }
             let id = visited.len() as u32;
             visited.insert(c.key.clone(), id);
